@@ -44,6 +44,9 @@ let handle (w : string list) : string =
             | _ -> go s' (k + 1) (max mx (int_of_z (inflight s'))) r)
          | None -> "REJECT at=" ^ string_of_int k ^ " event=" ^ e ^ " tc=" ^ string_of_int (int_of_z s.tc)) in
     go (init nn) 0 0 evs
+  | "dom" :: optK :: hosts ->
+    (* do the labels keep the domain?  dom <K:0/1> <host hex> ... *)
+    "keep=" ^ (if domain_in_label (optK = "1") (List.map bytes_of_hex hosts) then "1" else "0")
   | "exit" :: optS :: optk :: hosts ->
     (* the exit status of a scripted run: exit <S:0/1> <k:0/1> <fails:0/1>:<code>:<teardown status> ... *)
     let hl = List.map (fun t -> match String.split_on_char ':' t with
